@@ -140,6 +140,36 @@ Theorem C04_inplace_observer_refuted : exists s h, observers_only h = true
 Proof. exact inplace_history_refuted. Qed.
 Print Assumptions C04_inplace_observer_refuted.
 
+(* magnitudes: the choice of estimator depends only on which pair counts are present.  With rr
+   present the estimate is Landy-Szalay for every value of rr, however small (no side condition) ... *)
+Theorem C04_ls_for_any_rr : forall dd d rd r,
+  estimate dd (Some d) rd (Some r) == (dd - d - opt_or rd d + r) / r.
+Proof. exact estimate_ls_any_rr. Qed.
+Print Assumptions C04_ls_for_any_rr.
+
+(* ... and a common factor of all normalised terms (pair fractions of 1e-12 as well as of 1e+9)
+   changes neither estimator *)
+Theorem C04_estimate_scale_invariant : forall c dd dr rd rr, ~ c == 0 -> den_nonzero dr rd rr ->
+  estimate (c * dd) (oscaleq c dr) (oscaleq c rd) (oscaleq c rr) == estimate dd dr rd rr.
+Proof. exact estimate_scale. Qed.
+Print Assumptions C04_estimate_scale_invariant.
+
+(* an implementation that treats an rr with |rr| <= eps as absent (np.allclose(rr, 0): eps = 1e-8)
+   is indistinguishable from the code on all inputs whose rr exceeds eps, and for every eps > 0 it
+   is not the documented estimator on some pair counts with rr present and non-zero: the
+   quantifier over all pair counts includes every magnitude *)
+Theorem C04_threshold_fallback_agrees_above : forall eps dd dr rd r, eps < Qabs r ->
+  estimate_thr eps dd dr rd (Some r) = estimate dd dr rd (Some r).
+Proof. exact thr_fallback_agrees_above. Qed.
+Print Assumptions C04_threshold_fallback_agrees_above.
+
+Theorem C04_threshold_fallback_refuted : forall eps, 0 < eps ->
+  exists dd d x r, ~ r == 0 /\ Qabs r <= eps
+    /\ estimate_doc dd (Some d) (Some x) (Some r) == 2
+    /\ estimate_thr eps dd (Some d) (Some x) (Some r) == 3.
+Proof. exact thr_fallback_refuted. Qed.
+Print Assumptions C04_threshold_fallback_refuted.
+
 (* non-vacuity *)
 Example C04_concrete_estimators :
   Qred (estimate 6 (Some 2) None (Some 4)) = 3 # 2        (* LS with rd := dr : (6-2-2+4)/4 *)
@@ -175,4 +205,20 @@ Example C04_concrete_history :
   /\ c04_hist_case 2 s h (Some (run_calls h s)) (Some ([Some 1], [[Some 0]; [Some 2]])) = 0%nat
   /\ c04_hist_case 2 s h (Some (run_calls h s)) (Some ([Some (1 # 2)], [[Some 0]; [Some 2]])) = 3%nat
   /\ c04_hist_case 2 s h (Some (run_calls_inplace h s)) (Some ([Some 1], [[Some 0]; [Some 2]])) = 8%nat.
+Proof. vm_compute. repeat split; reflexivity. Qed.
+
+Example C04_concrete_magnitudes :
+  (* two patches of total weight 2^20 each in both samples: every normalised term is c / 2^41,
+     rr = 2^-41 (4.5e-13); (4-2-1+1)/1 = 2 is accepted, DD/RD-1 = 3 is reported as "ignores rr",
+     another wrong value without that diagnosis; with rr absent 3 is right *)
+  let p c := {| pc_auto := false; pc_counts := [[[c; 0]; [0; c]]];
+                pc_w1 := [[1048576; 1048576]]; pc_w2 := [[1048576; 1048576]] |} in
+  map (fun x => Qred (fst x)) (pc_data (p 1)) = [1 # 2199023255552]
+  /\ c04_corr_case_x 2 (p 4) (Some (p 2)) (Some (p 1)) (Some (p 1)) (Some ([Some 2], [[Some 2]; [Some 2]])) = 0%nat
+  /\ c04_corr_case_x 2 (p 4) (Some (p 2)) (Some (p 1)) (Some (p 1)) (Some ([Some 3], [[Some 3]; [Some 3]])) = 23%nat
+  /\ c04_corr_case_x 2 (p 4) (Some (p 2)) (Some (p 1)) (Some (p 1)) (Some ([Some 5], [[Some 2]; [Some 2]])) = 3%nat
+  /\ c04_corr_case_x 2 (p 4) (Some (p 2)) (Some (p 1)) None (Some ([Some 3], [[Some 3]; [Some 3]])) = 0%nat
+  /\ Qred (estimate_thr (1 # 100000000) 4 (Some 2) (Some 1) (Some 1)) = 2
+  /\ Qred (estimate_thr (1 # 100000000) (4 # 2199023255552) (Some (2 # 2199023255552)) (Some (1 # 2199023255552))
+                        (Some (1 # 2199023255552))) = 3.
 Proof. vm_compute. repeat split; reflexivity. Qed.
